@@ -34,6 +34,13 @@ def load():
         ext = os.path.join(mirdump.REPO, 'ractor', 'src', 'rpc', 'call_result.rs')
         if os.path.exists(ext):
             prog.crate.add_source('EXT/ractor/src/rpc/call_result.rs', open(ext).read())
+        # enums of the ractor crate that ractor_cluster matches on (ractor is built with its `cluster` feature here)
+        ext2 = os.path.join(mirdump.REPO, 'ractor', 'src', 'message.rs')
+        if os.path.exists(ext2):
+            feats = set(prog.crate.features)
+            prog.crate.features = feats | {'cluster'}
+            prog.crate.add_source('EXT/ractor/src/message.rs', open(ext2).read())
+            prog.crate.features = feats
         prog.rescan_impls()
         prog._gen_added = True
         info['generated_protocol_sources'] = d
